@@ -163,7 +163,7 @@ Section Run.
   Let frags : list (bool * bool) :=
     map (fun mx => let m := fst mx in let x := snd mx in
                    (in_fragment_C02 bi (inh_of (x_inh x)) (c_init c) (c_call c) (x_ms x) (kw_of (x_kw x)) (pm_prog m),
-                    well_tokened (pm_nlines m) (pm_prog m) && fresh (pm_nlines m) (pm_prog m) (c_fresh c)))
+                    unique_ids (pm_prog m) && fresh_name (pm_prog m) (c_fresh c)))
         (combine (c_mods c) cx).
 
   (* 0 not applicable (keyword query, module rename, token that is not a core token or denotes no scope-owned
@@ -171,7 +171,8 @@ Section Run.
      1 inside the domain of C01_alpha_partial and its conclusion holds on every core token of the module;
      2 inside the domain and the conclusion FAILS (would contradict the theorem);
      3 outside C02's fragment, conclusion holds;   4 outside the fragment, conclusion fails;
-     5 inside the fragment but the structural hypothesis (well_tokened / fresh) does not hold *)
+     5 inside the fragment but the token ids are not unique or the new name is not fresh (a defect of the
+       harness's translation, not of rope) *)
   Definition alpha_class (q : query) : N :=
     let m := N.to_nat (q_mod q) in
     if q_kw q || N.eqb (q_tok q) whole_module then 0
@@ -199,6 +200,85 @@ Section Run.
       | _, _, _ => 0
       end%N.
   Definition alpha_classes : list N := map alpha_class (c_queries c).
+
+  (* The alpha theorem on a rename of a MODULE-LEVEL binding that is seen from several modules (un-aliased
+     from-imports, module attributes).  In module j the respelled tokens [ids_j] are a rename of j's own module-level
+     name (when that name is linked to the target: Pb = []) or touch no binding of j at all (Pb = a path that owns
+     nothing).  Evaluated per module: the hypotheses of C01_alpha_exact (exact_tree for ids_j, exactness on every core
+     token, freshness) and its conclusion; and that every `from a import y` at module level still names something
+     the (relabelled) module a binds at module level.
+       0 not such a rename;  6 hypotheses and conclusion hold in every module, import links kept;
+       7 some hypothesis fails (outside the theorem's domain), conclusion and links hold;
+       8 hypotheses hold but the conclusion FAILS somewhere (would contradict C01_alpha_exact);
+       9 hypotheses fail and the conclusion or an import link fails *)
+  Definition nowhere : path := repeat 0%nat 16.
+  Definition ids_in (edits : list (nat * list N)) (j : nat) : list N :=
+    match find (fun e => Nat.eqb (fst e) j) edits with Some e => snd e | None => [] end.
+  Definition root_bound (pm : pmod) (ids : list N) (n : ident) : list ident :=
+    map (new_name n ids) (obound (spec_otree (pm_nlines pm) (pm_prog pm))).
+
+  Definition alpha_multi_class (q : query) : N :=
+    let m := N.to_nat (q_mod q) in
+    if q_kw q || N.eqb (q_tok q) whole_module then 0
+    else
+      match token_of cx m (q_tok q) with
+      | Some (xm, t) =>
+          match gkey_of bi (c_init c) (c_call c) cx m xm t,
+                project_rename bi (c_init c) (c_call c) cx (fun _ _ => true) m (q_tok q) false with
+          | GVar m0 (BScope []) y, RChanges _ edits [] =>
+              if forallb (fun e => Nat.eqb (fst e) m0) edits then 0
+              else
+                let x := t_name t in
+                let n := c_fresh c in
+                let target := GVar m0 (BScope []) y in
+                let mods := combine (seq 0 (length cx)) (combine (c_mods c) cx) in
+                let per := map (fun jmx =>
+                  let j := fst jmx in let pm := fst (snd jmx) in let xj := snd (snd jmx) in
+                  let p := pm_prog pm in let nl := pm_nlines pm in
+                  let ids := ids_in edits j in
+                  let Pb := if same_key target (name_in cx (fuel0 cx) j x) then [] else nowhere in
+                  let st := spec_tree nl p in
+                  let hyp :=
+                    exact_tree bi x n Pb ids (spec_otree nl p)
+                    && fresh_name p n
+                    && forallb (fun u => if core u
+                                         then Bool.eqb (memN (t_id u) ids)
+                                                       (is_target Pb (spec_binding bi st u) && N.eqb (t_name u) x)
+                                         else true) (x_ts xj) in
+                  let concl :=
+                    forallb (fun u => if core u then alpha_tok bi nl p ids n (t_env u) (t_id u) (t_name u) else true)
+                            (x_ts xj) in
+                  let links :=
+                    forallb (fun u =>
+                      match okind_of (t_occ u), t_env u with
+                      | KImportName, [] =>
+                          let bound := match t_role u with RAliased k => k | _ => t_name u end in
+                          match last_import (x_imports xj) bound with
+                          | Some (TName a z) =>
+                              match find_mod cx a with
+                              | Some ia =>
+                                  match nth_error (c_mods c) ia with
+                                  | Some pa =>
+                                      let z' := if memN (t_id u) ids then n else t_name u in
+                                      implb (mem (t_name u) (root_bound pa [] n))
+                                            (mem z' (root_bound pa (ids_in edits ia) n))
+                                  | None => true
+                                  end
+                              | None => true
+                              end
+                          | _ => true
+                          end
+                      | _, _ => true
+                      end) (x_ts xj) in
+                  (hyp, concl && links)) mods in
+                let hyps := forallb fst per in
+                let concls := forallb snd per in
+                if hyps then (if concls then 6 else 8) else (if concls then 7 else 9)
+          | _, _ => 0
+          end
+      | None => 0
+      end%N.
+  Definition alpha_multi_classes : list N := map alpha_multi_class (c_queries c).
   Definition classes : list N := map classify (c_queries c).
   Definition regressed_count : N := fold_right N.add 0%N (map regressed (c_queries c)).
 End Run.
@@ -207,6 +287,7 @@ Definition mismatches (cs : list case) : list (list (N * N)) := map run_case cs.
 Definition all_classes (cs : list case) : list (list N) := map classes cs.
 Definition all_regressed (cs : list case) : list N := map regressed_count cs.
 Definition all_alpha (cs : list case) : list (list N) := map alpha_classes cs.
+Definition all_alpha_multi (cs : list case) : list (list N) := map alpha_multi_classes cs.
 
 (* debugging aid: the model's view of a case: per module, per token (id, key class, module of the key) *)
 Definition describe (c : case) : list (list (N * (N * N))) :=
